@@ -149,6 +149,13 @@ func Protect(m *abs.Msg, s Suite, k DirKeys, iv, pad []byte, o *Opts) ([]byte, e
 }
 
 func ProtectRaw(m *abs.Msg, first uint8, inner []byte, s Suite, k DirKeys, iv, pad []byte, o *Opts) ([]byte, error) {
+	return ProtectOuter(m, first, inner, s, k, iv, pad, o, nil)
+}
+
+// ProtectOuter is ProtectRaw with additional cleartext payloads in FRONT of the SK payload in the outer chain
+// (e.g. payloads of types the receiver does not implement); they are covered by the checksum like everything
+// before it.
+func ProtectOuter(m *abs.Msg, first uint8, inner []byte, s Suite, k DirKeys, iv, pad []byte, o *Opts, outer []abs.Payload) ([]byte, error) {
 	if len(pad) > 255 || (len(inner)+len(pad)+1)%16 != 0 {
 		return nil, fmt.Errorf("ref protect: pad length %d does not align %d octets", len(pad), len(inner))
 	}
@@ -162,7 +169,30 @@ func ProtectRaw(m *abs.Msg, first uint8, inner []byte, s Suite, k DirKeys, iv, p
 		return nil, ErrTooLong
 	}
 	w := &wbuf{}
-	w.raw(EncodeHeader(m, abs.PSK, 28+skLen))
+	var pre []byte
+	hdrFirst := uint8(abs.PSK)
+	if len(outer) > 0 {
+		// chain: outer[0] -> outer[1] -> ... -> SK
+		for i, p := range outer {
+			body, err := EncodeBody(p, o)
+			if err != nil || len(body)+4 > 0xffff {
+				return nil, ErrTooLong
+			}
+			next := uint8(abs.PSK)
+			if i+1 < len(outer) {
+				next = outer[i+1].Kind
+			}
+			fl := o.noise() & 0x7f
+			if p.Crit {
+				fl |= 0x80
+			}
+			pre = append(pre, next, fl, byte((len(body)+4)>>8), byte(len(body)+4))
+			pre = append(pre, body...)
+		}
+		hdrFirst = outer[0].Kind
+	}
+	w.raw(EncodeHeader(m, hdrFirst, 28+len(pre)+skLen))
+	w.raw(pre)
 	w.u8(first)
 	w.u8(o.noise() & 0x7f)
 	w.u16(uint16(skLen))
